@@ -59,7 +59,8 @@ class WireObserver:
         self.largest = collections.defaultdict(lambda: -1)  # (x, space) -> largest pn seen
         self.version = None
         self.keylog_pos = 0
-        self.secrets = {}  # label -> secret
+        self.secrets = {}  # label -> secret (the first one logged)
+        self.all_secrets = {}  # label -> every secret logged under it, in order
         self.history = {"c": [], "s": []}  # (time, [PacketView])
         self.undecryptable = collections.Counter()
         self.initial_dcids = set()
@@ -81,8 +82,13 @@ class WireObserver:
                 continue
             for line in text[pos:].splitlines():
                 parts = line.split()
-                if len(parts) == 3 and parts[0] not in self.secrets:
-                    self.secrets[parts[0]] = bytes.fromhex(parts[2])
+                if len(parts) == 3:
+                    sec = bytes.fromhex(parts[2])
+                    if parts[0] not in self.secrets:
+                        self.secrets[parts[0]] = sec
+                    # a client that starts over (Retry, Version Negotiation) sends a new ClientHello: a new early secret is logged under the same label
+                    if sec not in self.all_secrets.setdefault(parts[0], []):
+                        self.all_secrets[parts[0]].append(sec)
             self._pos[id(f)] = len(text)
 
     def suites_for(self, secret):
@@ -116,10 +122,10 @@ class WireObserver:
         if label is None:
             return []
         self.refresh()
-        secret = self.secrets.get(label)
-        if secret is None:
+        secrets = self.all_secrets.get(label)
+        if not secrets:
             return []
-        return [R.derive_keys(s, version, secret) for s in self.suites_for(secret)]
+        return [R.derive_keys(s, version, secret) for secret in reversed(secrets) for s in self.suites_for(secret)]
 
     # ---------------------------------------------------------------- decoding
     def try_open(self, x, keys_list, pkt, info, space):
